@@ -508,7 +508,7 @@ func stressWorld(b run.Batch, r *ev.Result, rng *rand.Rand, round int, phases []
 	impN.Store(0)
 	jobTrace.Store(true)
 	now := uint32(3300)
-	drv.SetClock(now)
+	setClock(now)
 	rot0 := drv.RotationsDone.Load()
 	drv.GateRotation(false)
 	drv.GateImpact(false)
@@ -561,6 +561,10 @@ func stressWorld(b run.Batch, r *ev.Result, rng *rand.Rand, round int, phases []
 		w.pendingV, w.pendingS = nil, nil
 		if drv.RotationsDone.Load() != rotBefore {
 			r.Count("stress.phases_with_rotation", 1)
+			if !checkImpactPositions(w.S, r, "stress phase "+ph.label+" (a rotation ran during it)", nil) {
+				w.broken = true // stop here; the state is already wrong
+				return done, false
+			}
 		}
 		r.Count("stress.phases", 1)
 		if ph.label != "mix" {
@@ -570,7 +574,7 @@ func stressWorld(b run.Batch, r *ev.Result, rng *rand.Rand, round int, phases []
 		allDevs = append(allDevs, devs...)
 		done++
 		now += 170
-		drv.SetClock(now)
+		setClock(now)
 		if os.Getenv("VERIF_C13_DEBUG") != "" {
 			r.Note("phase %s: %d goroutines, %d ms", ph.label, len(plans), time.Since(phaseStart).Milliseconds())
 		}
